@@ -371,6 +371,43 @@ func check(c *pbt.Case, r *pbt.R) {
 		}
 	}
 
+	// (v) ... and contributes its safe details to reports: every safe
+	// detail of every layer of a hidden error's chain is part of the
+	// safe details of the layer that hides it (barrier, secondary error).
+	for _, n := range c.Spec.Nodes() {
+		var hid *gen.Spec
+		switch {
+		case gen.IsBarrierKind(n.K):
+			hid = n.C
+		case n.K == "secondary" || n.K == "combine" || n.K == "wrapferr" || n.K == "newfwerr":
+			hid = n.X[0]
+		}
+		if hid == nil || b.Of[n] == nil || b.Of[hid] == nil {
+			continue
+		}
+		var have []string
+		w := b.Of[n]
+		for i := 0; i < len(gen.Chain1(n)) && w != nil; i, w = i+1, errors.UnwrapOnce(w) {
+			have = append(have, errors.GetSafeDetails(w).SafeDetails...)
+		}
+		for x := b.Of[hid]; x != nil; x = errors.UnwrapOnce(x) {
+			for _, sd := range errors.GetSafeDetails(x).SafeDetails {
+				if sd == "" {
+					continue
+				}
+				found := false
+				for _, el := range have {
+					if strings.HasSuffix(el, sd) {
+						found = true
+					}
+				}
+				if !found {
+					r.Failf("a safe detail of a hidden error is missing from the safe details of the layer that hides it: "+n.K, "layer %T of the hidden error, detail %.200q\nspec %s", x, sd, c.Spec)
+				}
+			}
+		}
+	}
+
 	rich := false
 	for _, h := range hs {
 		if len(gen.Chain(h.spec)) >= 2 && h.spec.Has(payloadKinds...) {
